@@ -207,14 +207,20 @@ def index_functions(src):
     msk = mask(src)
     impls = []
     for m in re.finditer(r'\bimpl\b', msk):
+        # `impl` blocks only (item position); `impl Trait` in a type position is not an item
+        prev = msk[:m.start()].rstrip()
+        if prev and prev[-1] not in '};]{' and not prev.endswith('unsafe') and not prev.endswith('default'):
+            continue
         k = m.end()
         depth = 0
-        while not (msk[k] == '{' and depth == 0):
+        while k < len(msk) and not (msk[k] == '{' and depth == 0):
             if msk[k] in '([':
                 depth += 1
             elif msk[k] in ')]':
                 depth -= 1
             k += 1
+        if k >= len(msk):
+            continue
         hdr = ' '.join(src[m.end():k].split())
         hdr = re.sub(r'^<[^>]*>\s*', '', hdr)
         if ' for ' in hdr:
